@@ -20,9 +20,21 @@ from sfv import gen
 from sfv.canon import tok, untok, err_cat, dtype_tok, array_toks, frame_snapshot, series_snapshot
 from sfv.tbwire import Interner, tb_wire_from_blocks, answer_tb, real_tb_view
 from sfv import ops
-from sfv.props import c03_shift
+from sfv.props import c03_shift   # roll / shift: TypeBlocks._shift_blocks, util.array_shift (cases 'shift')
+from sfv.props import c03_binop   # binary operators: operand splitting of TypeBlocks._ufunc_binary_operator (cases 'bo_*')
 
-TARGETS = ['SFModel.Props.C03'] + c03_shift.TARGETS
+# sub-modules bringing their own model files, theorems, cases and evaluation; a case belongs to the first whose OWNS accepts its kind
+SUBS = [(c03_shift, lambda k: k == 'shift'), (c03_binop, lambda k: k.startswith('bo_'))]
+
+
+def _sub(c):
+    for m, owns in SUBS:
+        if owns(c['k']):
+            return m
+    return None
+
+
+TARGETS = ['SFModel.Props.C03'] + c03_shift.TARGETS + c03_binop.TARGETS
 THEOREMS = [
     'SF.C03.cols_wf', 'SF.C03.fromBlocks_sound', 'SF.C03.index_spec', 'SF.C03.contiguous_pairs_expand',
     'SF.C03.contiguous_pairs_total', 'SF.C03.extract_refines', 'SF.C03.layout_unobservable_extract',
@@ -30,14 +42,14 @@ THEOREMS = [
     'SF.C03.caches_ofBlocks_coherent', 'SF.C03.caches_append_coherent', 'SF.C03.caches_history_coherent',
     'SF.C03.caches_history_row_dtype', 'SF.C03.caches_grown_from_empty', 'SF.C03.row_dtype_history_differs',
     'SF.C03.row_dtype_history_agrees_of_preserving',
-] + c03_shift.THEOREMS
-PARTIAL = list(c03_shift.PARTIAL)
-CORR_ONLY = ['every single-frame public operation of harness/sfv/ops.py not mirrored in Blocks.lean is covered by the two-layout oracle only']
+] + c03_shift.THEOREMS + c03_binop.THEOREMS
+PARTIAL = list(c03_shift.PARTIAL) + list(c03_binop.PARTIAL)
+CORR_ONLY = ['every single-frame public operation of harness/sfv/ops.py not mirrored in Blocks.lean is covered by the two-layout oracle only'] + c03_binop.CORR_ONLY
 RULE = ('tb: random frames (<=4 rows, <=6 cols, dtype runs) x random layout x op x keys, model vs real TypeBlocks; '
         'layout: random frame x two different layouts with equal per-column dtypes x one operation of the catalogue '
         '(thorough: every layout of the frame); non-trivial = at least two columns and, for layout cases, two distinct layouts; '
-        'distinct = distinct canonical case JSON; ' + c03_shift.RULE)
-TRUSTED = ['NumPy indexing of one block is a model parameter (list selection), validated by the tb correspondence'] + c03_shift.TRUSTED
+        'distinct = distinct canonical case JSON; ' + c03_shift.RULE + '; ' + c03_binop.RULE)
+TRUSTED = ['NumPy indexing of one block is a model parameter (list selection), validated by the tb correspondence'] + c03_shift.TRUSTED + c03_binop.TRUSTED
 ASSUMPTIONS = ['the operation catalogue (harness/sfv/ops.py) samples the public single-frame interface; operations outside it are not exercised']
 BUDGET = {'quick': 200, 'thorough': 1700}
 
@@ -45,8 +57,8 @@ TB_OPS = ['extract', 'drop_c', 'drop_r', 'drop_rc', 'slices0', 'slices1', 'astyp
 
 
 def nontrivial(c):
-    if c['k'] == 'shift':
-        return c03_shift.nontrivial(c)
+    if _sub(c) is not None:
+        return _sub(c).nontrivial(c)
     if c['k'] == 'tb':
         return len(c['spec']['cols']) >= 2
     if c['k'] == 'layout':
@@ -64,8 +76,9 @@ def same_dtype_layouts(spec, rng, want=2, limit=40):
 
 
 def cases(ctx):
-    # roll / shift (c03_shift.py, own random stream): first, so that the budget never cuts them off
+    # sub-modules first (own random streams: the streams below are unchanged), so that the budget never cuts them off
     yield from c03_shift.cases(ctx)
+    yield from c03_binop.cases(ctx)
     rng = ctx.rng('main')
     quick = ctx.tier == 'quick'
     for i in range(5000 if quick else 40000):
@@ -235,8 +248,8 @@ def history_wire(c):
 
 
 def model_lines(c):
-    if c['k'] == 'shift':
-        return c03_shift.model_lines(c)
+    if _sub(c) is not None:
+        return _sub(c).model_lines(c)
     if c['k'] == 'coher':
         w = history_wire(c)
         c['_clash'] = w is None
@@ -277,8 +290,8 @@ def model_lines(c):
 
 
 def evaluate(ctx, c, outs):
-    if c['k'] == 'shift':
-        return c03_shift.evaluate(ctx, c, outs)
+    if _sub(c) is not None:
+        return _sub(c).evaluate(ctx, c, outs)
     if c['k'] == 'tb':
         return eval_tb(ctx, c, outs)
     if c['k'] == 'layout':
